@@ -6,7 +6,11 @@ package main
 // are dropped) is usually decided at once. Dropping assumptions is sound for
 // `unsat`; a `sat` answer of the ground variant is never trusted.
 
-import "sort"
+import (
+	"math/big"
+	"sort"
+	"strings"
+)
 
 type inst struct {
 	q    *Term
@@ -151,17 +155,153 @@ func matchTerm(p, g *Term, vars []*Term, bind map[*Term]*Term) bool {
 		return rp.IsLit && rg.IsLit && rp.Sort == rg.Sort && rp.String() == rg.String()
 	}
 	if rp.Op != rg.Op || len(rp.Args) != len(rg.Args) || rp.Sort != rg.Sort || rp.Q != nil || rg.Q != nil {
-		return false
+		return extGround && matchLinear(rp, g, vars, bind)
 	}
 	if len(rp.Args) == 0 {
 		return rp.String() == rg.String()
 	}
+	// try the syntactic match on a copy so that a failed attempt leaves no bindings behind
+	trial := map[*Term]*Term{}
+	for k, v := range bind {
+		trial[k] = v
+	}
+	ok := true
 	for i := range rp.Args {
-		if !matchTerm(rp.Args[i], rg.Args[i], vars, bind) {
+		if !matchTerm(rp.Args[i], rg.Args[i], vars, trial) {
+			ok = false
+			break
+		}
+	}
+	if ok {
+		for k, v := range trial {
+			bind[k] = v
+		}
+		return true
+	}
+	return extGround && matchLinear(rp, g, vars, bind)
+}
+
+// matchLinear: a pattern `t + v` (an index expression: offset plus a bound variable) matches any
+// integer term g by solving for the variable, v := g - t, once every other variable of t is
+// bound. Matching stays syntactic everywhere else; this only removes the dependence on how an
+// index happens to be written (off + (k + 1) against (off + k) + 1).
+func matchLinear(p, g *Term, vars []*Term, bind map[*Term]*Term) bool {
+	if p.Sort != SInt || g.Sort != SInt || p.Op != "+" || len(p.Args) != 2 {
+		return false
+	}
+	for vi := 0; vi < 2; vi++ {
+		v, other := p.Args[vi], p.Args[1-vi]
+		if !isBound(v, vars) {
+			continue
+		}
+		if _, done := bind[v]; done {
+			continue
+		}
+		if !allVarsBound(other, vars, bind) {
+			continue
+		}
+		o := substTerm(other, bind, map[*Term]*Term{})
+		bind[v] = linNorm(ISub(g, o))
+		return true
+	}
+	return false
+}
+
+func allVarsBound(t *Term, vars []*Term, bind map[*Term]*Term) bool {
+	if isBound(t, vars) {
+		_, ok := bind[t]
+		return ok
+	}
+	if t.Q != nil {
+		return false
+	}
+	for _, a := range t.Args {
+		if !allVarsBound(a, vars, bind) {
 			return false
 		}
 	}
 	return true
+}
+
+// linNorm: an integer term as a sum of atoms with integer coefficients, atoms in a fixed order
+// (so that x + 1 + y - x becomes y + 1).
+func linNorm(t *Term) *Term {
+	type mono struct {
+		atom *Term
+		c    *big.Int
+	}
+	ms := map[string]*mono{}
+	var order []string
+	k := big.NewInt(0)
+	var walk func(t *Term, sign int64)
+	walk = func(t *Term, sign int64) {
+		r := t
+		if r.Sym != nil && r.Sym.Def != nil && len(r.Args) == 0 {
+			r = resolve(r)
+		}
+		switch {
+		case r.IsLit && r.Sort == SInt:
+			k.Add(k, new(big.Int).Mul(r.Int, big.NewInt(sign)))
+		case r.Op == "+" && r.Sort == SInt:
+			for _, a := range r.Args {
+				walk(a, sign)
+			}
+		case r.Op == "-" && r.Sort == SInt && len(r.Args) == 2:
+			walk(r.Args[0], sign)
+			walk(r.Args[1], -sign)
+		case r.Op == "-" && r.Sort == SInt && len(r.Args) == 1:
+			walk(r.Args[0], -sign)
+		default:
+			key := t.String()
+			m, ok := ms[key]
+			if !ok {
+				m = &mono{atom: t, c: big.NewInt(0)}
+				ms[key] = m
+				order = append(order, key)
+			}
+			m.c.Add(m.c, big.NewInt(sign))
+		}
+	}
+	walk(t, 1)
+	sort.Strings(order)
+	var out *Term
+	add := func(x *Term) {
+		if out == nil {
+			out = x
+		} else {
+			out = IAdd(out, x)
+		}
+	}
+	var negs []*Term
+	for _, key := range order {
+		m := ms[key]
+		switch {
+		case m.c.Sign() == 0:
+		case m.c.Cmp(big.NewInt(1)) == 0:
+			add(m.atom)
+		case m.c.Cmp(big.NewInt(-1)) == 0:
+			negs = append(negs, m.atom)
+		case m.c.Sign() > 0:
+			add(IMul(&Term{IsLit: true, Int: new(big.Int).Set(m.c), Sort: SInt}, m.atom))
+		default:
+			negs = append(negs, IMul(&Term{IsLit: true, Int: new(big.Int).Neg(m.c), Sort: SInt}, m.atom))
+		}
+	}
+	if k.Sign() > 0 || out == nil {
+		if !(k.Sign() == 0 && (out != nil || len(negs) > 0)) {
+			add(&Term{IsLit: true, Int: new(big.Int).Set(k), Sort: SInt})
+		}
+	}
+	if out == nil {
+		out = IntLit(0)
+	}
+	for _, n := range negs {
+		out = ISub(out, n)
+	}
+	if k.Sign() < 0 {
+		out = ISub(out, &Term{IsLit: true, Int: new(big.Int).Neg(k), Sort: SInt})
+	}
+	return out
 }
 
 func substTerm(t *Term, bind map[*Term]*Term, memo map[*Term]*Term) *Term {
@@ -195,6 +335,12 @@ func substTerm(t *Term, bind map[*Term]*Term, memo map[*Term]*Term) *Term {
 	r := t
 	if changed {
 		r = &Term{Op: t.Op, Args: args, Sort: t.Sort, Sym: t.Sym}
+		if extGround && t.Op == "+" && t.Sort == SInt && len(args) == 2 && t.Sym == nil {
+			// an index pattern off + v instantiated at v := g - off (matchLinear)
+			if n := linNorm(r); len(n.String()) < len(r.String()) {
+				r = n
+			}
+		}
 		if t.Op == "const-array" {
 			r = ConstArray(t.Sort, args[0])
 		}
@@ -322,8 +468,75 @@ func instantiate(as []*Term, goal *Term, rounds, cap int) []*Term {
 			addAll(focus)
 		}
 	}
+	// goal-directed instances: a universal assumption is also instantiated at the Skolem
+	// constants of the goal (every sort-consistent assignment). For "the invariant is preserved"
+	// goals this is the instance of the hypothesis at the very objects the goal talks about,
+	// which syntactic matching misses when the state in between was updated (the pattern's terms
+	// over the old state do not occur in the goal).
+	var seedTerms []*Term
+	if extGround {
+		var sks []*Term
+		for _, t := range groundSubterms([]*Term{goal}) {
+			if len(t.Args) == 0 && t.Q == nil && strings.HasPrefix(t.Op, "sk_") {
+				sks = append(sks, t)
+			}
+		}
+		// ... and, for integers, their neighbours (an element moved by one position)
+		if n := len(sks); n > 0 && n <= 4 {
+			for _, t := range sks[:n] {
+				if t.Sort == SInt {
+					sks = append(sks, IAdd(t, IntLit(1)), ISub(t, IntLit(1)))
+				}
+			}
+		}
+		var seeded []*Term
+		if len(sks) > 0 && len(sks) <= 12 {
+			for _, q := range qs {
+				var binds []map[*Term]*Term
+				var rec func(i int, b map[*Term]*Term)
+				rec = func(i int, b map[*Term]*Term) {
+					if len(binds) >= 64 {
+						return
+					}
+					if i == len(q.Q.Vars) {
+						nb := map[*Term]*Term{}
+						for k, v := range b {
+							nb[k] = v
+						}
+						binds = append(binds, nb)
+						return
+					}
+					for _, sk := range sks {
+						if sk.Sort == q.Q.Vars[i].Sort {
+							b[q.Q.Vars[i]] = sk
+							rec(i+1, b)
+							delete(b, q.Q.Vars[i])
+						}
+					}
+				}
+				rec(0, map[*Term]*Term{})
+				for _, b := range binds {
+					body := substTerm(q.Q.Body, b, map[*Term]*Term{})
+					k := body.String()
+					if seen[k] {
+						continue
+					}
+					seen[k] = true
+					seeded = append(seeded, body)
+				}
+			}
+		}
+		if len(seeded) > 0 {
+			insts = append(insts, seeded...)
+			seedTerms = groundSubterms(seeded)
+			addAll(seedTerms)
+		}
+	}
 	run(groundSubterms([]*Term{goal}), rounds+1)
 	run(groundSubterms(ground), rounds)
+	if len(seedTerms) > 0 {
+		run(seedTerms, rounds)
+	}
 	sort.SliceStable(insts, func(i, j int) bool { return len(insts[i].String()) < len(insts[j].String()) })
 	return insts
 }
